@@ -22,6 +22,10 @@ CLAIMED = {
   text="Machine-checked proof of the append rules on the model: success implies dtypes (and digital signal counts) matched, NONE/REGULAR receivers keep their timing with NONE/REGULAR sources, IRREGULAR receivers get exactly the concatenated timestamps of IRREGULAR sources, samples appended in order, properties looked up as receiver-first then earliest source (never overwritten), scale/dtype/start untouched, other pool objects untouched, mode mismatch raises TimingMismatchError, arrays need timestamps exactly for IRREGULAR receivers. The converse (must succeed when the conditions hold, exact warnings) is decided per run by the list-level spec oracle in Coq on append-biased pool histories with shared Timing objects.",
   design="DESIGN.md §7 C10", tech="Coq proof over the pool model + in-Coq pool correspondence",
   note=TB + "hand model tied by correspondence."),
+ "C13": dict(
+  text="Machine-checked proof over the pickle model (each __reduce__/_unpickle pair = the public constructor applied to the reduced arguments): every waveform/spectrum satisfying the pool invariant - hence every object of every pool reachable by ANY operation history, by induction - unpickles to an object with the same kind, dtype, visible samples, signal/sample counts, timing, scale and properties, start_index 0 and capacity = sample_count, which compares equal; == is a function of the observable state only (ignores slack); every Timing the constructor accepts pickles to itself (None vs zero members kept; timing validity is a pool invariant); Vector restores its pickled value type (re-deriving it is refuted by an int vector holding a bool); TimeDelta/DateTime via the regenerated from_ticks (C02). Correspondence: every public type x protocols 2-5/default/deepcopy, observable snapshots incl. member types and data bits, == both ways, independence by mutating copy and original, same-state twins with different slack.",
+  design="DESIGN.md §7 C13", tech="Coq proof over a hand pickle model on top of the pool invariant + in-Coq correspondence with mutation-based independence checks",
+  note=TB + "pickle/copy.deepcopy of builtins, datetime, hightime, ndarray assumed exact; independence of the copy is a correspondence result (values are immutable terms in the model)."),
  "C15": dict(
   text="Machine-checked proof over the names model (property value, cached parsed list, key-changed invalidation, index reversal): after ANY history of name reads, name writes, direct NI_LineNames set/delete, merges through append, unrelated operations and pickling the cache is either empty or exactly the padded parse of the CURRENT property (induction over histories); hence signals[i].name = the (signal_count-1-i)-th trimmed comma-separated entry, signals[name] returns a signal carrying that name or IndexError, and assigning a name without comma / surrounding whitespace changes that entry only and NI_LineNames becomes the joined list (parse(join l) = l for clean lists, proved on strings as code-point lists). Correspondence: histories through the collection, held signals, unpickled/copied signals and a twin waveform sharing the dictionary, judged statelessly against the property value the implementation holds at each read.",
   design="DESIGN.md §7 C15", tech="Coq invariant proof by induction over histories + string lemmas; in-Coq correspondence",
